@@ -109,10 +109,13 @@ func calleeIs(cc *ssa.CallCommon, fn *ssa.Function) bool {
 			return true
 		}
 	}
-	// call of a closure value made from fn's bound wrapper
-	if mc, ok := cc.Value.(*ssa.MakeClosure); ok {
-		if g, ok := mc.Fn.(*ssa.Function); ok && (origin(g) == origin(fn) || isBoundOf(g, fn)) {
-			return true
+	// call of a closure value made from fn's bound wrapper — directly, or chosen on the way
+	// (f := b.stepsA; if cond { f = b.stepsB }; f(kind))
+	for _, alt := range valueAlternatives(cc.Value, 3) {
+		if mc, ok := alt.(*ssa.MakeClosure); ok {
+			if g, ok := mc.Fn.(*ssa.Function); ok && (origin(g) == origin(fn) || isBoundOf(g, fn)) {
+				return true
+			}
 		}
 	}
 	return false
